@@ -897,6 +897,97 @@ func mcRunRdpDelims(e *mcEnv, cf *mcRdpCfg) {
 	}
 }
 
+// every inner length / indicator field of a request swept around the real size (real-20 .. real+20, 0, 1,
+// 255, 65535) while the outer framing keeps describing the real byte count; the TPKT length and the X.224
+// length indicator are swept alone and together as well
+func mcRunRdpInnerLengths(e *mcEnv, cfs []*mcRdpCfg) {
+	r := e.rng
+	neg := mcRdpNeg(0, 3)
+	negc := mcRdpNeg(8, 3)
+	corr := mcRdpCorr(mcRdpID(r))
+	type base struct {
+		name    string
+		payload []byte
+		tokLen  int // real token length when the payload starts with a token, else 0
+		negOff  int // offset of the negotiation request, -1: none
+		corrOff int
+	}
+	tok := func(opt []byte) []byte { return mcRdpToken(opt) }
+	full := tok(mcRdpTokenCookie([4]byte{10, 0, 0, 10}, 3389))
+	crlf := tok([]byte("\r\n"))
+	cut := tok([]byte("Cookie: msts=\r\n"))
+	cookie := mcRdpCookie([]byte("user1"))
+	bases := []base{
+		{"token", mcCat(full, neg), len(full), len(full), -1},
+		{"token-crlf-only", crlf, len(crlf), -1, -1},
+		{"token-crlf-only+neg", mcCat(crlf, neg), len(crlf), len(crlf), -1},
+		{"token-cut-after-prefix", cut, len(cut), -1, -1},
+		{"token-cut-after-prefix+neg+corr", mcCat(cut, negc, corr), len(cut), len(cut), len(cut) + 8},
+		{"cookie+neg+corr", mcCat(cookie, negc, corr), 0, len(cookie), len(cookie) + 8},
+		{"neg", neg, 0, 0, -1},
+	}
+	values := func(real int) []int {
+		v := []int{0, 1, 255, 65535}
+		for d := -20; d <= 20; d++ {
+			if real+d >= 0 {
+				v = append(v, real+d)
+			}
+		}
+		return v
+	}
+	run := func(cls string, m *mcRdp) {
+		b := m.encode()
+		for _, ci := range []int{0, 4, 5} {
+			mcMatchCase(e, cfs[ci].mt, b, true, "innerlen:"+cls)
+		}
+	}
+	for _, bs := range bases {
+		mk := func(pl []byte) *mcRdp { return &mcRdp{ver: 3, tc: 0xE0, routing: pl} }
+		total := 11 + len(bs.payload)
+		if bs.tokLen > 0 {
+			for _, v := range values(bs.tokLen) {
+				// token Length with the indicator following it, the indicator left alone, and the indicator alone
+				p := append([]byte(nil), bs.payload...)
+				p[2], p[3], p[4] = byte(v>>8), byte(v), byte(v-5)
+				run(bs.name+":token-length+indicator", mk(p))
+				p = append([]byte(nil), bs.payload...)
+				p[2], p[3] = byte(v>>8), byte(v)
+				run(bs.name+":token-length", mk(p))
+				p = append([]byte(nil), bs.payload...)
+				p[4] = byte(v)
+				run(bs.name+":token-indicator", mk(p))
+			}
+		}
+		if bs.negOff >= 0 {
+			for _, v := range values(8) {
+				p := append([]byte(nil), bs.payload...)
+				p[bs.negOff+2], p[bs.negOff+3] = byte(v), byte(v>>8)
+				run(bs.name+":negreq-length", mk(p))
+			}
+		}
+		if bs.corrOff >= 0 {
+			for _, v := range values(36) {
+				p := append([]byte(nil), bs.payload...)
+				p[bs.corrOff+2], p[bs.corrOff+3] = byte(v), byte(v>>8)
+				run(bs.name+":corrinfo-length", mk(p))
+			}
+		}
+		for _, v := range values(total) {
+			m := mk(bs.payload)
+			m.lenD = v - total
+			run(bs.name+":tpkt-length", m)
+			m = mk(bs.payload)
+			m.lenD, m.xLenD = v-total, v-total
+			run(bs.name+":tpkt+x224-length", m)
+		}
+		for _, v := range values(total - 5) {
+			m := mk(bs.payload)
+			m.xLenD = v - (total - 5)
+			run(bs.name+":x224-indicator", m)
+		}
+	}
+}
+
 // streams for the C04 / C06 runs: valid requests (with trailing data), mutations, CR/LF placements
 func mcRdpStreams(r *vRng, n int) [][]byte {
 	var out [][]byte
@@ -1028,6 +1119,7 @@ func TestVerifMCodec(t *testing.T) {
 					}
 				}
 			}
+			mcRunRdpInnerLengths(e, rd)
 			// rdp: every payload length with consistent headers, random payload
 			for l := 0; l <= 252; l++ {
 				pl := r.Bytes(l)
